@@ -12,7 +12,7 @@ def run(rep, tier, seed):
     k_options.validators_finite(rep, 'C12')   # an out-of-range option value is screened before the edit starts
     k_order.c10_order(rep, 'C12')   # the raw path: parse / locate before the first splice into the real tree
     sec = native.run('b_edit', 'main', {'props': ['C12'], 'tier': tier, 'seed': seed,
-                                        'ops': ['remove', 'donor', 'slice', 'views', 'optional', 'badopts'], 'norm': True})
+                                        'ops': ['remove', 'donor', 'slice', 'views', 'optional', 'badopts', 'refusals'], 'norm': True})
     sec['native_entry'] = ('b_edit', 'replay')
     rep.bounded(sec)
     sec = native.run('b_raw', 'main', {'props': ['C12'], 'tier': tier, 'seed': seed, 'ops': ['reparse', 'rawput']})
